@@ -275,3 +275,20 @@ PROPS["C08"] = _diff_prop(
     dict(min_evaluations=40, min_distinct=15, counters={"targets_compared": 40, "history_utterances": 30, "interleaved_pairs_compared": 5,
                                                        "targets_with_cmn_reset": 20}),
     quick=(48, 96), thorough=(1000, 3000))
+
+PROPS["C18"] = dict(
+    title="Features and scores stay finite and within range for any audio", level="exploration",
+    technique="runtime range/finiteness monitor over adversarial signals, with UBSan signed-integer-overflow / float-cast-overflow and ASan on",
+    level_text="exploration: adversarial signals (digital silence, +-1 LSB, full-scale squares, impulses, DC, white noise, hard-clipped speech, "
+               "alternating extremes, ramps, speech followed by silence; int16, float32 in range and up to +-8) from one sample to minutes are fed "
+               "(a) to front ends with random configurations: every cepstral value must be finite; (b) to decoders (compallsen=yes, cmn live / "
+               "batch / none, full_utt / streaming / buffered): dynamic features finite, per-frame senone scores non-negative with minimum 0 "
+               "(re-scored via acmod_rewind), path and segment scores in [WORST_SCORE, 0] and non-increasing, exported CMN state finite and a fixed "
+               "point of export/import, and a normal utterance afterwards still decodes; UBSan traps any signed overflow on the way.",
+    level_note="NaN/Inf samples are outside the statement's list and not generated; quick tier goes to 60 s, thorough to 5 minutes",
+    rule="one case = one (configuration, signal, length, encoding, calling pattern); non-trivial = frames were produced; distinct = those parameters.",
+    stages=[dict(harness="h_c18", flavor="asan", quick=240, thorough=3000), dict(harness="h_c18", flavor="fast", quick=400, thorough=6000, name="h_c18_fast")],
+    floor=dict(min_evaluations=200, min_distinct=100, counters={"fe_runs": 50, "fe_float32_out_of_range": 5, "decoder_runs": 100, "frames_rescored": 1000,
+                                                              "cmn_roundtrips_checked": 50, "normal_utterances_afterwards": 50}),
+    assumptions=[A_SAN, A_GEN],
+)
